@@ -203,7 +203,10 @@ class Report:
         cov["discharged"] = n_dis
         cov["refuted_known_findings"] = len(known_hit)
         cov["checker_cmd"] = f"./check {self.pid} --tier {self.tier}"
-        cov["trusted_base"] = self.trusted_base
+        cov["trusted_base"] = list(self.trusted_base)
+        if self.extra.get("avm_crosscheck_runs"):
+            cov["trusted_base"].append(f"spec/avm.py cross-checked in this run against {self.extra['avm_crosscheck_runs']} outcomes upstream observed on a real node "
+                                       "(pinned integration goldens, spec/crosscheck.py); self-checks at import: spec/avm, spec/tealcheck; before use: pyvc engine, fragcheck comparison")
         cov["functions_under_contract"] = self.functions
         cov["by_kind"] = {k: {"obligations": sum(1 for o in self.obs if o.kind == k),
                               "discharged": sum(1 for o in self.obs if o.kind == k and o.status == "discharged")}
